@@ -2559,26 +2559,10 @@ static hawk_ooi_t hawk_rio_console (hawk_rtx_t* rtx, hawk_rio_cmd_t cmd, hawk_ri
 		{
 			hawk_ooi_t nn;
 
-			while ((nn = hawk_sio_getoochars((hawk_sio_t*)riod->handle, data, size)) == 0)
-			{
-				int n;
-				hawk_sio_t* sio = (hawk_sio_t*)riod->handle;
-
-				n = open_rio_console(rtx, riod);
-				if (n <= -1) return -1;
-
-				if (n == 0)
-				{
-					/* no more input console */
-					return 0;
-				}
-
-				if (sio) hawk_sio_close (sio);
-
-				/* reset FNR to 0 here since the caller doesn't know that the file has changed. */
-				hawk_rtx_setgbl(rtx, HAWK_GBL_FNR, hawk_rtx_makeintval(rtx, 0));
-			}
-
+			/* return 0 at the end of each file. the end of a file ends
+			 * the current record. the caller moves on to the next file
+			 * with HAWK_RIO_CMD_NEXT */
+			nn = hawk_sio_getoochars((hawk_sio_t*)riod->handle, data, size);
 			if (nn <= -1) set_rio_error (rtx, HAWK_EREAD, HAWK_T("unable to read"), hawk_sio_getpath((hawk_sio_t*)riod->handle));
 			return nn;
 		}
@@ -2587,24 +2571,7 @@ static hawk_ooi_t hawk_rio_console (hawk_rtx_t* rtx, hawk_rio_cmd_t cmd, hawk_ri
 		{
 			hawk_ooi_t nn;
 
-			while ((nn = hawk_sio_getbchars((hawk_sio_t*)riod->handle, data, size)) == 0)
-			{
-				int n;
-				hawk_sio_t* sio = (hawk_sio_t*)riod->handle;
-
-				n = open_rio_console(rtx, riod);
-				if (n <= -1) return -1;
-
-				if (n == 0)
-				{
-					/* no more input console */
-					return 0;
-				}
-
-				if (sio) hawk_sio_close (sio);
-				hawk_rtx_setgbl(rtx, HAWK_GBL_FNR, hawk_rtx_makeintval(rtx, 0));
-			}
-
+			nn = hawk_sio_getbchars((hawk_sio_t*)riod->handle, data, size);
 			if (nn <= -1) set_rio_error (rtx, HAWK_EREAD, HAWK_T("unable to read"), hawk_sio_getpath((hawk_sio_t*)riod->handle));
 			return nn;
 		}
